@@ -25,28 +25,28 @@ import (
 type c8kind int
 
 const (
-	c8declX c8kind = iota // x := K
-	c8declY               // y := K
-	c8varX                // var x int = K
-	c8zeroX               // var x int
-	c8byteX               // var x uint8 = 250
-	c8redecl              // x, y := K, K2
-	c8asgX                // x = K
-	c8asgY                // y = K
-	c8incX                // x++
-	c8useX                // trace(int(x))
-	c8useY                // trace(int(y))
-	c8constX              // const x = K (afterwards x cannot be assigned in this scope and the scopes nested in it)
+	c8declX  c8kind = iota // x := K
+	c8declY                // y := K
+	c8varX                 // var x int = K
+	c8zeroX                // var x int
+	c8byteX                // var x uint8 = 250
+	c8redecl               // x, y := K, K2
+	c8asgX                 // x = K
+	c8asgY                 // y = K
+	c8incX                 // x++
+	c8useX                 // trace(int(x))
+	c8useY                 // trace(int(y))
+	c8constX               // const x = K (afterwards x cannot be assigned in this scope and the scopes nested in it)
 	c8leafEnd
-	c8if        // if int(x) > 500 {A}
-	c8ifElse    // if int(x) > 500 {A} else {B}
-	c8ifInit    // if x := K; x > 0 {A}
-	c8ifInitEl  // if x := K; x < 0 {A} else {B}
-	c8forX      // for x := 0; x < 2; x++ {A}
-	c8for2      // for i := 0; i < 2; i++ {A}
-	c8rangeX    // for _, x := range two {A}
-	c8rangeXY   // for x, y := range two {A}
-	c8switch    // switch { case int(y) > 1500: A default: B }
+	c8if       // if int(x) > 500 {A}
+	c8ifElse   // if int(x) > 500 {A} else {B}
+	c8ifInit   // if x := K; x > 0 {A}
+	c8ifInitEl // if x := K; x < 0 {A} else {B}
+	c8forX     // for x := 0; x < 2; x++ {A}
+	c8for2     // for i := 0; i < 2; i++ {A}
+	c8rangeX   // for _, x := range two {A}
+	c8rangeXY  // for x, y := range two {A}
+	c8switch   // switch { case int(y) > 1500: A default: B }
 )
 
 type c8stmt struct {
